@@ -147,17 +147,19 @@ fn main() {
                         let obs = world::execute(&run);
                         let j = (sc.judge)(&run, &obs);
                         let mut h = prng::str_hash(&serde_json::to_string(&run).unwrap());
-                        if !run.events.iter().any(|e| matches!(e, model::Op::Build { observe: true, .. })) {
-                            // v1.public signatures carry real RSA-PSS salt: digest their verdicts only
-                            let v1p = run.events.iter().any(|e| match e {
-                                model::Op::NewBuilder { proto, .. } | model::Op::CoreIssue { proto, .. } => *proto == model::Proto::V1P,
-                                _ => false,
-                            });
-                            if !v1p {
-                                h = prng::mix(&[h, prng::str_hash(&serde_json::to_string(&obs).unwrap())]);
-                            }
+                        // v1.public signatures carry real RSA-PSS salt and observe-mode builds real OS
+                        // entropy: for those runs only the event list and the violation count are digested
+                        // (which faults are applicable at a given text position depends on signature bytes)
+                        let uncontrolled = run.events.iter().any(|e| match e {
+                            model::Op::NewBuilder { proto, .. } | model::Op::CoreIssue { proto, .. } => *proto == model::Proto::V1P,
+                            model::Op::Build { observe: true, .. } => true,
+                            _ => false,
+                        });
+                        if !uncontrolled {
+                            h = prng::mix(&[h, prng::str_hash(&serde_json::to_string(&obs).unwrap())]);
+                            h = prng::mix(&[h, prng::str_hash(&j.trace.join("|")), j.evaluations]);
                         }
-                        h = prng::mix(&[h, prng::str_hash(&j.trace.join("|")), j.evaluations, j.violations.len() as u64]);
+                        h = prng::mix(&[h, j.violations.len() as u64]);
                         res.lock().unwrap().insert(i, h);
                     }
                     env::uninstall();
